@@ -146,3 +146,47 @@ Section P2.
     Forall (fun it => it_arg it = ctx_arg c /\ it_model it = c_model c) (items ev c sl err st cbs p).
   Proof. revert p; induction cbs as [|cb r IH]; intros p; cbn [items]; constructor; auto. Qed.
 End P2.
+Section Payload.
+  Variable mc : machine.
+  Variable ev : env.
+  Variable c : ctx.
+  Definition carries (it : item) : Prop := it_arg it = ctx_arg c /\ it_model it = c_model c.
+
+  Lemma items_carry sl err st cbs p : Forall carries (items ev c sl err st cbs p).
+  Proof. revert p; induction cbs as [|cb r IH]; intros p; cbn [items]; constructor; [split; reflexivity|apply IH]. Qed.
+  Lemma cond_items_carry st conds p : Forall carries (fst (cond_items ev c st conds p)).
+  Proof.
+    revert p; induction conds as [|[cb tg] r IH]; intros p; cbn [cond_items]; [constructor|].
+    destruct (Bool.eqb _ _).
+    - specialize (IH (S p)). destruct (cond_items ev c st r (S p)). cbn [fst] in *. constructor; [split; reflexivity|exact IH].
+    - cbn [fst]. constructor; [split; reflexivity|constructor].
+  Qed.
+  Lemma scan_carry st cands p : Forall carries (fst (scan ev c st cands p)).
+  Proof.
+    revert p; induction cands as [|t r IH]; intros p; cbn [scan]; [constructor|].
+    pose proof (cond_items_carry st (t_conds t) (p + length (items ev c SPrepare None st (t_prepare t) p))) as H.
+    destruct (cond_items ev c st (t_conds t) _) as [ci ok]. cbn [fst] in H. destruct ok; cbn [fst].
+    - apply Forall_app. split; [apply items_carry|exact H].
+    - specialize (IH (p + length (items ev c SPrepare None st (t_prepare t) p) + length ci)).
+      destruct (scan ev c st r _). cbn [fst] in *. repeat (apply Forall_app; split); auto using items_carry.
+  Qed.
+  Lemma body_carry src t p : Forall carries (fst (body mc ev c src t p)).
+  Proof.
+    unfold body. destruct (t_dst t) as [d|]; cbn [fst].
+    - destruct (s_final (sdef_of mc d)); repeat (apply Forall_app; split); auto using items_carry.
+    - repeat (apply Forall_app; split); auto using items_carry.
+  Qed.
+
+  (* every callback of the step is handed the trigger's arguments unchanged (or the one event
+     object wrapping them when send_event is set) and runs on behalf of the triggered model *)
+  Theorem spec_step_payload ts cur p : Forall carries (fst (fst (spec_step mc ev c ts cur p))).
+  Proof.
+    unfold spec_step, spec_body.
+    pose proof (scan_carry cur (candidates ts cur) (p + length (items ev c SPrepareEvent None cur (m_prepare_event mc) p))) as SC.
+    destruct (scan ev c cur (candidates ts cur) _) as [sc ch]. cbn [fst] in SC. destruct ch as [t|].
+    - pose proof (body_carry cur t (p + length (items ev c SPrepareEvent None cur (m_prepare_event mc) p) + length sc)) as BC.
+      destruct (body mc ev c cur t _) as [b s']. cbn [fst snd] in *.
+      repeat (apply Forall_app; split); auto using items_carry.
+    - cbn [fst snd]. repeat (apply Forall_app; split); auto using items_carry.
+  Qed.
+End Payload.
